@@ -11,6 +11,10 @@ pub broadcast axiom fn axiom_string_ext(a: String, b: String)
     requires #[trigger] a@ == #[trigger] b@,
     ensures a == b;
 
+pub broadcast axiom fn axiom_str_ext(a: &str, b: &str)
+    requires #[trigger] a@ == #[trigger] b@,
+    ensures a == b;
+
 // T2. `x.into()` / `Box::from(x)` boxes x.
 pub assume_specification<T>[ <Box<T> as core::convert::From<T>>::from ](x: T) -> (r: Box<T>)
     ensures *r == x;
